@@ -145,12 +145,12 @@ def run(ctx):
         for (ti, tag), off, msg in bad:
             direction = "received from quiche" if tag.startswith("rxp") else "sent to quiche"
             fails.append(("e2e:c07:frame-parse-disagreement", f"payload {tag} ({direction}) offset {off}: {msg}", traces[ti]))
-        for tr in traces:
-            try:
-                k, bad = e2e_c07.cross_parse_tp(tr)
-            except Exception as e:
-                fails.append(("e2e:oracle-crash:cross_parse_tp", f"{type(e).__name__}: {e}", tr))
-                continue
+        try:
+            tp_res = e2e_c07.cross_parse_tp_many(traces)
+        except Exception as e:
+            tp_res = []
+            fails.append(("e2e:oracle-crash:cross_parse_tp", f"{type(e).__name__}: {e}", traces[0]))
+        for tr, (k, bad) in zip(traces, tp_res):
             tp_checks += k
             for msg in bad[:1]:
                 fails.append(("e2e:c07:tp-disagreement", msg, tr))
